@@ -8,6 +8,7 @@ pub mod ctlrun;
 pub mod c03;
 pub mod c04;
 pub mod c08;
+pub mod c09;
 pub mod c11;
 pub mod c12;
 pub mod c13;
@@ -29,6 +30,11 @@ pub fn run(ctx: &mut Ctx) -> bool {
         "C08" => {
             ctx.rule = c08::RULE.into();
             c08::run(ctx)
+        }
+        "C09" => {
+            ctx.rule = c09::RULE.into();
+            ctx.level = "fault_enumeration";
+            c09::run(ctx)
         }
         "C10" => {
             ctx.rule = c02::RULE_C10.into();
